@@ -45,6 +45,60 @@ pub assume_specification<T> [<[T]>::split_last] (s: &[T]) -> (r: Option<(&T, &[T
     ensures s@.len() == 0 ==> r is None,
             s@.len() > 0 ==> r is Some && *r.unwrap().0 == s@[s@.len() - 1] && r.unwrap().1@ == s@.subrange(0, s@.len() - 1);
 
+// ---- struct-level collaborators
+pub struct StructField<P: TyPosition> { pub docs: Docs, pub name: IdentBuf, pub ty: Type<P>, pub attrs: Attrs }
+pub type OutStructField = StructField<OutputOnly>;
+pub struct StructDef { pub docs: Docs, pub name: IdentBuf, pub fields: Vec<StructField<Everywhere>>, pub methods: Vec<Method>, pub attrs: Attrs,
+                       pub lifetimes: LifetimeEnv, pub special_method_presence: SpecialMethodPresence }
+pub struct OutStructDef { pub docs: Docs, pub name: IdentBuf, pub fields: Vec<StructField<OutputOnly>>, pub methods: Vec<Method>, pub attrs: Attrs,
+                          pub lifetimes: LifetimeEnv, pub special_method_presence: SpecialMethodPresence }
+impl StructDef {
+    pub fn new(docs: Docs, name: IdentBuf, fields: Vec<StructField<Everywhere>>, methods: Vec<Method>, attrs: Attrs, lifetimes: LifetimeEnv, special_method_presence: SpecialMethodPresence) -> (r: Self)
+        ensures r.fields == fields, r.methods == methods, r.attrs == attrs
+    { Self { docs, name, fields, methods, attrs, lifetimes, special_method_presence } }
+}
+impl OutStructDef {
+    pub fn new(docs: Docs, name: IdentBuf, fields: Vec<StructField<OutputOnly>>, methods: Vec<Method>, attrs: Attrs, lifetimes: LifetimeEnv, special_method_presence: SpecialMethodPresence) -> (r: Self)
+        ensures r.fields == fields, r.methods == methods, r.attrs == attrs
+    { Self { docs, name, fields, methods, attrs, lifetimes, special_method_presence } }
+}
+pub enum TypeDef<'a> { Struct(&'a StructDef), OutStruct(&'a OutStructDef) }
+impl<'a> TypeDef<'a> {
+    // `TypeDef::from(&def)` (From impls): abstract
+    #[verifier::external_body] pub fn from_struct(d: &'a StructDef) -> TypeDef<'a> { unimplemented!() }
+    #[verifier::external_body] pub fn from_out_struct(d: &'a OutStructDef) -> TypeDef<'a> { unimplemented!() }
+}
+impl SpecialMethodPresence { #[verifier::external_body] pub fn default() -> SpecialMethodPresence { unimplemented!() } }
+#[derive(Copy, Clone)] pub enum SymbolId { TypeId(TypeId), TraitId(TraitId) }
+// `item.id.try_into()?` (TryFrom<SymbolId> for TypeId, Error = ()): abstract
+#[verifier::external_body] pub fn __symbol_to_type_id(id: SymbolId) -> (r: Result<TypeId, ()>) ensures (id is TypeId) ==> r is Ok { unimplemented!() }
+// struct lifetimes are lowered by the AST env itself (no elision inside struct definitions)
+impl<'x> LifetimeLowerer for &'x ast::LifetimeEnv {
+    #[verifier::external_body] fn lower_lifetime(&mut self, lifetime: &ast::Lifetime) -> MaybeStatic<Lifetime> { unimplemented!() }
+    #[verifier::external_body] fn lower_generics(&mut self, lifetimes: &[ast::Lifetime], type_generics: &ast::LifetimeEnv, is_self: bool) -> Lifetimes { unimplemented!() }
+}
+// FFI-safety of a written type (proved equal to this spec on the real TypeName::is_ffi_safe in unit ffi_safe)
+pub open spec fn is_ptr(t: ast::TypeName) -> bool { t is Reference || t is Box }
+pub open spec fn spec_ffi_safe(t: ast::TypeName) -> bool {
+    match t {
+        ast::TypeName::Option(inner, sd) => if is_ptr(*inner) { sd == StdlibOrDiplomat::Stdlib } else { sd == StdlibOrDiplomat::Diplomat },
+        ast::TypeName::StrReference(_, _, sd) => sd == StdlibOrDiplomat::Diplomat,
+        ast::TypeName::StrSlice(_, sd) => sd == StdlibOrDiplomat::Diplomat,
+        ast::TypeName::PrimitiveSlice(_, _, sd) => sd == StdlibOrDiplomat::Diplomat,
+        ast::TypeName::Unit | ast::TypeName::Write | ast::TypeName::Result(..) | ast::TypeName::Ordering => false,
+        _ => true,
+    }
+}
+#[verifier::external_body] pub fn __is_ffi_safe(t: &ast::TypeName) -> (r: bool) ensures r == spec_ffi_safe(*t) { unimplemented!() }
+
+// ---- oracle (struct level)
+pub open spec fn struct_fields_ok(l: &LookupId, st: &ast::Struct, in_path: ast::Path, env: Env) -> bool {
+    forall|j: int| 0 <= j < st.fields@.len() ==> spec_ffi_safe((#[trigger] st.fields@[j]).1) && allowed_in(l, st.fields@[j].1, in_path, env, false)
+}
+pub open spec fn out_struct_fields_ok(st: &ast::Struct, in_path: ast::Path, env: Env) -> bool {
+    st.fields@.len() > 0 && forall|j: int| 0 <= j < st.fields@.len() ==> allowed_out((#[trigger] st.fields@[j]).1, in_path, env, true, false)
+}
+
 // ---- oracle (method level)
 pub open spec fn is_write_param(p: ast::Param) -> bool {
     match p.ty { ast::TypeName::Reference(_, m, w) => m == Mutability::Mutable && *w == ast::TypeName::Write, _ => false }
@@ -104,6 +158,43 @@ LAM_INV = """            invariant
 
 LAM_HINT = """            proof { assert(method == ast_methods@[it.index@]); }"""
 
+ACCEPTED = "res.is_ok() && final(self).errors.errors@.len() == old(self).errors.errors@.len()"
+LS_CONTRACT = f"""        requires item.id is TypeId, // lower_all_structs hands out type ids (a trait id would make `try_into()?` fail without an error message)
+        ensures {CANARY}
+            // accepted (Ok and no error reported) and not disabled for this backend ==> every field is FFI-safe as written and passes the input gate
+            ({ACCEPTED}) && !old(self).attr_validator.disabled_spec(item.item.attrs, item.ty_parent_attrs)
+                ==> struct_fields_ok(&old(self).lookup_id, item.item, *item.in_path, *old(self).env),
+            // methods on zero-sized structs are rejected
+            res.is_ok() && !old(self).attr_validator.disabled_spec(item.item.attrs, item.ty_parent_attrs) && item.item.fields@.len() == 0
+                ==> item.item.methods@.len() == 0,
+{G.FRAME}"""
+LOS_CONTRACT = f"""        requires item.id is TypeId,
+        ensures {CANARY}
+            res.is_ok() ==> item.item.fields@.len() > 0,
+            res.is_ok() && !old(self).attr_validator.disabled_spec(item.item.attrs, item.ty_parent_attrs)
+                ==> out_struct_fields_ok(item.item, *item.in_path, *old(self).env),
+{G.FRAME}"""
+LS_INV = """                invariant
+                    self.env == old(self).env, self.lookup_id == old(self).lookup_id,
+                    self.attr_validator == old(self).attr_validator, self.cfg == old(self).cfg,
+                    self.errors.errors@.len() >= old(self).errors.errors@.len(),
+                    ast_struct == item.item,
+                    fields is Err ==> self.errors.errors@.len() > old(self).errors.errors@.len(),
+                    // as long as no error was reported, all fields seen so far are FFI-safe and accepted
+                    self.errors.errors@.len() == old(self).errors.errors@.len() ==>
+                        (forall|j: int| 0 <= j < it.index@ ==> spec_ffi_safe((#[trigger] ast_struct.fields@[j]).1)
+                            && allowed_in(&old(self).lookup_id, ast_struct.fields@[j].1, *item.in_path, *old(self).env, false)),"""
+LOS_INV = """                    invariant
+                        self.env == old(self).env, self.lookup_id == old(self).lookup_id,
+                        self.attr_validator == old(self).attr_validator, self.cfg == old(self).cfg,
+                        self.errors.errors@.len() >= old(self).errors.errors@.len(),
+                        ast_out_struct == item.item,
+                        name is Err ==> self.errors.errors@.len() > old(self).errors.errors@.len(),
+                        fields is Err ==> self.errors.errors@.len() > old(self).errors.errors@.len(),
+                        fields is Ok ==> (forall|j: int| 0 <= j < it.index@ ==> allowed_out((#[trigger] ast_out_struct.fields@[j]).1, *item.in_path, *old(self).env, true, false)),"""
+TUPLE_HINT = """                    let (name, ty, docs, attrs) = (&f__.0, &f__.1, &f__.2, &f__.3);
+                    proof { assert(f__ == {S}.fields@[it.index@]); }"""
+
 ABSTRACT_GATES = """
     // ---- the per-type gate functions, abstract here: contracts proved on the real code in unit lower_type_gate
     #[verifier::external_body]
@@ -124,6 +215,17 @@ ABSTRACT_GATES = """
             res.is_ok() == return_ok(rt_view(return_type), *in_path, *old(self).env),
 {FRAME}
             res.is_ok() ==> return_shape(rt_view(return_type), takes_write, res.unwrap().0),
+    {{ unimplemented!() }}
+    #[verifier::external_body]
+    fn lower_out_type(&mut self, ty: &ast::TypeName, ltl: &mut impl LifetimeLowerer, in_path: &ast::Path, in_struct: bool, in_result_option: bool) -> (res: Result<OutType, ()>)
+        ensures
+            res.is_ok() == allowed_out(*ty, *in_path, *old(self).env, in_struct, in_result_option),
+{FRAME}
+    {{ unimplemented!() }}
+    #[verifier::external_body]
+    fn lower_type_lifetime_env(&mut self, ast: &ast::LifetimeEnv) -> (res: Result<LifetimeEnv, ()>)
+        ensures
+{FRAME}
     {{ unimplemented!() }}
     // lower_ident validates the identifier string (strck): abstract
     #[verifier::external_body]
@@ -218,7 +320,11 @@ def build(tier):
     p.contract("        ensures r == (*self is SelfType),", ret_name="r")
     vf.add_piece(p, under_contract=False)
     vf.add("    }\n")
-    vf.add(c0)
+    hand = "    pub struct Struct { pub fields: Vec<(Ident, TypeName)>, pub lifetimes: LifetimeEnv, pub name: Ident }\n"
+    if hand not in c0:
+        raise Undecided("prelude-mismatch", "hand-declared ast::Struct not found in the prelude")
+    vf.add(c0.replace(hand, ""))
+    vhelp.typedef(vf, Src("core/src/ast/structs.rs"), "Struct", "struct")
     vhelp.typedef(vf, ms, "SelfParam", "struct")
     vhelp.typedef(vf, ms, "Param", "struct")
     vf.add("    #[verifier::external_body] pub struct Docs { x: u8 }\n    impl Clone for Docs { #[verifier::external_body] fn clone(&self) -> Self { unimplemented!() } }\n"
@@ -237,7 +343,7 @@ def build(tier):
                         "pub struct Attrs { pub disable: bool, pub special_method: Option<SpecialMethod>, pub rest: AttrsRest }\n"
                         "impl Attrs { #[verifier::external_body] pub fn default() -> Attrs { unimplemented!() } }")
     head = head.replace("#[derive(Copy, Clone)] pub enum AttributeContext { SelfParam, Param, Other }",
-                        "pub enum AttributeContext<'a> { SelfParam, Param, Other, Method(&'a Method, TypeId, &'a mut SpecialMethodPresence) }")
+                        "pub enum AttributeContext<'a> { SelfParam, Param, Other, Field, Type(TypeDef<'a>), Method(&'a Method, TypeId, &'a mut SpecialMethodPresence) }")
     head = head.replace("""    fn attr_from_ast(&self, ast: &ast::Attrs, parent_attrs: &Attrs, errors: &mut ErrorStore) -> (r: Attrs)
         ensures final(errors).errors@.len() >= old(errors).errors@.len();""", """    // whether the item is disabled for this backend: decided by Attrs::from_ast (cfg evaluation: unit cfg_eval); abstract here
     spec fn disabled_spec(&self, ast: ast::Attrs, parent_attrs: Attrs) -> bool;
@@ -247,6 +353,8 @@ def build(tier):
 }""", """    { self.errors.push(error); }
     #[verifier::external_body]
     pub fn set_subitem(&mut self, subitem: &str) ensures final(self).errors == old(self).errors { unimplemented!() }
+    #[verifier::external_body]
+    pub fn set_item(&mut self, item: &str) ensures final(self).errors == old(self).errors { unimplemented!() }
 }""")
     if "disabled_spec" not in head or "set_subitem" not in head:
         raise Undecided("prelude-mismatch", "lower_type_gate prelude changed shape (attr_from_ast / ErrorStore)")
@@ -260,6 +368,10 @@ def build(tier):
     vf.add(EXTRA_PRELUDE)
     vf.add(SPLL)
     vf.add(LAM_SPECS)
+    ii = src.item("ItemAndInfo", "struct")
+    pi = Piece(src, ii)
+    pi.sub("E1", r"pub\(crate\)", "pub", count=None)
+    vf.add_piece(pi, under_contract=False)
     vf.add("impl<'ast, V: AttributeValidator> LoweringContext<'ast, V> {" + tail)
     vf.add(ABSTRACT_GATES.format(FRAME=G.FRAME))
 
@@ -333,16 +445,35 @@ def build(tier):
     p.fn("E17", e17, why="`continue` in a for loop is unsupported by Verus: `if c { continue; } REST` rewritten to `if !c { REST }`")
     G.common_body_edits(p)
     vf.add_piece(p, expected="lower_all_methods")
+    for fn, contract, inv, var in (("lower_struct", LS_CONTRACT, LS_INV, "ast_struct"), ("lower_out_struct", LOS_CONTRACT, LOS_INV, "ast_out_struct")):
+        it = src.item(f"impl LoweringContext<'ast>::{fn}", "fn")
+        p = Piece(src, it)
+        p.expect_loops(1)
+        p.contract(contract, ret_name="res")
+        lp = it["loops"][0]
+        if src.slice(lp["pat"][0], lp["pat"][1]) != "(name, ty, docs, attrs)":
+            raise Undecided("anchor-lost", f"{fn}: field loop pattern changed")
+        p.replace("E10", lp["pat"][0], lp["pat"][1], "f__", "tuple pattern in `for` destructured in the body")
+        p.loop_spec(0, inv, iter_name="it")
+        p.loop_body_prefix(0, TUPLE_HINT.replace("{S}", var))
+        p.sub("E6", r"item\.id\.try_into\(\)\?", "__symbol_to_type_id(item.id)?", count=1, why="TryFrom<SymbolId> for TypeId abstracted")
+        p.sub("E2", r"!ty\.is_ffi_safe\(\)", "!__is_ffi_safe(ty)", count=None, why="TypeName::is_ffi_safe: contract proved in unit ffi_safe")
+        p.sub("E6", r"[ \t]*let ffisafe = ty\.ffi_safe_version\(\);\n", "", count=None, why="only used in the error message")
+        p.sub("E12", r"AttributeContext::Type\(TypeDef::from\(&def\)\)", "AttributeContext::Type(TypeDef::from_struct(&def))" if fn == "lower_struct" else "AttributeContext::Type(TypeDef::from_out_struct(&def))", count=1, why="From impl selected by hand")
+        p.sub("E7", r"&(ast_struct|ast_out_struct)\.methods\[\.\.\]", r"\1.methods.as_slice()", count=1, why="`&v[..]` spelled `v.as_slice()`")
+        p.sub("E12", r"item: ItemAndInfo<'ast, ast::Struct>", "item: ItemAndInfo<'ast, ast::Struct>", count=1)
+        G.common_body_edits(p)
+        vf.add_piece(p, expected=fn)
     vf.add("}\n")
     vf.expected += ["lemma_write_only_last"]
     vf.add(vhelp.FOOTER)
     return vf
 
 
-CANARY_FUNCTIONS = ["lower_param", "lower_many_params", "lower_method", "lower_all_methods"]
+CANARY_FUNCTIONS = ["lower_param", "lower_many_params", "lower_method", "lower_all_methods", "lower_struct", "lower_out_struct"]
 ASSUMPTIONS = list(G.ASSUMPTIONS) + [
     "lower_type / lower_self_param / lower_return_type are abstract in this unit with the contracts proved in unit lower_type_gate (same contract text constants)",
     "lower_ident (strck identifier validation) and SelfParamLifetimeLowerer::new abstract: may fail, and then push an error",
     "<[T]>::split_last assume_specification; derived PartialEq on TypeName structural",
 ]
-UNVERIFIED = {"C13": ["Attrs::from_ast (how disable is computed from the cfg: syn Meta dispatch)"], "C05": ["lower_struct / lower_out_struct field loops and the is_ffi_safe gate call", "validate / validate_ty_in_method"], "C15": []}
+UNVERIFIED = {"C13": ["Attrs::from_ast (how disable is computed from the cfg: syn Meta dispatch)"], "C05": ["lower_opaque / lower_enum / lower_trait", "validate / validate_ty_in_method"], "C15": []}
